@@ -1075,3 +1075,36 @@ def run(ctx, R):
     n9 = C.reuse_obligations(ctx, R, c20._run_c20, 'R14.9',
                              select=lambda o: o.rule == 'R20.3')
     R.count('R14.9', n9, 2)
+
+
+def r1411(ctx, R):
+    """The 409 for a consumer that a racing request created first is 1.28
+    behaviour (consumer generations did not exist before): what
+    ensure_consumer hands to _create_consumer as ``expect_new`` is the 1.28
+    gate itself, not something that also holds below 1.28 (the body field is
+    absent there, i.e. None)."""
+    prog = ctx.prog
+    f = prog.func('placement.handlers.util:ensure_consumer')
+    callee = prog.func('placement.handlers.util:_create_consumer')
+    calls = C.calls_to(ctx, f, callee.qbase)
+    n = 0
+    for c in calls:
+        n += 1
+        a = C.arg_for_param(c, callee, 'expect_new') if 'expect_new' in \
+            callee.params else None
+        g = C.flag_gate(ctx, f, a) if a is not None else None
+        ok = g is not None and g.minv == (1, 28) and getattr(
+            g, 'maxv', None) in (None, ())
+        R.ob('R14.11', 'ensure_consumer:expect_new-is-the-1.28-gate', ok,
+             'expect_new is bound to the 1.28 version predicate',
+             '%s -> %s' % (src(a) if a is not None else None,
+                           getattr(g, 'minv', None)), func=f, node=c)
+    R.count('R14.11', n, 1)
+
+
+_run_c14b = run
+
+
+def run(ctx, R):
+    _run_c14b(ctx, R)
+    r1411(ctx, R)
